@@ -2,6 +2,7 @@ package h
 
 import (
 	"fmt"
+	"github.com/prometheus/prometheus/model/value"
 	"math"
 	"regexp"
 	"sort"
@@ -284,6 +285,13 @@ func GenDataset(r *Rng, w Window, lookback int64, maxSeries int, hostile, withHi
 			for k := range sm {
 				if sm[k].V == sm[k].V {
 					sm[k].V = math.Copysign(0, -1)
+				}
+			}
+		} else if hostile && r.P(0.15) {
+			// a series of (ordinary) NaNs: a member every ordering and reduction has to place somewhere
+			for k := range sm {
+				if !value.IsStaleNaN(sm[k].V) {
+					sm[k].V = math.NaN()
 				}
 			}
 		}
